@@ -353,6 +353,7 @@ struct Run {
   int npass, nops;                           // passes incl. final ones; root calls before the final
   uint8_t state_snap[MAXN];                  // Module::state() per node before the final
   uint8_t ni_snap[MAXN], ns_snap[MAXN];      // probe call counters before the final (as far as they decide future hook results)
+  uint8_t called_init[MAXN];                 // onInit ran at least once (variant 4: its deferred child has been added)
   uint8_t ret[MAXSEQ + 4];                   // return values of initialize/start (1/0), 2 for void calls
   int anom;
 };
@@ -381,7 +382,7 @@ static void execute(const Prog &p, const Json &cfg, const uint8_t *seq, int len,
   RealT t{root, &cfg, &m, nullptr};
   int k = drive(t, seq, len, frontend, r.ret); r.nops = k;
   r.nlog_snap = g_nlog;
-  for (int i = 0; i < p.n; i++) { r.state_snap[i] = (uint8_t)nodes[i]->state(); r.ni_snap[i] = (uint8_t)cntKey(p.fail[i], HI, nodes[i]->ni); r.ns_snap[i] = (uint8_t)cntKey(p.fail[i], HS, nodes[i]->ns); }
+  for (int i = 0; i < p.n; i++) { r.state_snap[i] = (uint8_t)nodes[i]->state(); r.ni_snap[i] = (uint8_t)cntKey(p.fail[i], HI, nodes[i]->ni); r.ns_snap[i] = (uint8_t)cntKey(p.fail[i], HS, nodes[i]->ns); r.called_init[i] = nodes[i]->ni > 0; }
   g_pass = (uint8_t)k;
   if (!frontend && fin == FIN_CLEANUP_DESTROY) { root->cleanup(); k++; g_pass = (uint8_t)k; }
   destroyTree(p, nodes, attached);
@@ -570,7 +571,7 @@ static void record(const Prog &p, const uint8_t *seq, int len, bool frontend, in
   g_viol_evals++;
   for (auto &f : fs) {
     g_sigcount[f.sig]++;
-    int odd = p.var; for (int i = 0; i < p.n; i++) odd += (p.fail[i] != 0) + p.named[i];
+    int odd = p.var; for (int i = 0; i < p.n; i++) odd += (p.fail[i] != 0) + 3 * (p.fail[i] == M_INITX2 || p.fail[i] == M_STARTX2) + p.named[i];
     long key = p.n * 1000000L + (frontend ? 5 : len) * 10000L + r.nlog * 100 + odd;
     auto &v = g_best[f.sig];
     if (v.size() >= 2 && key >= v.back().key) continue;
@@ -660,6 +661,7 @@ static std::string evalHistory(const Prog &p, const Json &cfg, const std::vector
     canon += char('0' + m.st_snap[i]);
     canon += char('0' + r.ni_snap[i] * 3 + r.ns_snap[i]);
     canon += char('0' + m.ni_snap[i] * 3 + m.ns_snap[i]);
+    if (p.var == V_ADD_FROM_ONINIT) canon += char('0' + r.called_init[i] * 2 + (m.ni[i] > 0));   // has the module's deferred child been added
   }
   // history counters (capped): a rolled-back failure / a finished life cycle is a different state than "never tried"
   if (!frontend) {
